@@ -543,6 +543,8 @@ def damage_fixed(c):
 
 def run(ctx):
     rng = ctx.rng
+    from props import cli_proc
+    cli_proc.stream(ctx, ['C18'])
     for case in corpus():
         check_case(ctx, case)
     ctx.extra['corpus_cases'] = len(corpus())
@@ -552,6 +554,9 @@ def run(ctx):
 
 
 def replay_case(ctx, case):
+    if case.get('kind') == 'cli-process':
+        from props import cli_proc
+        return cli_proc.replay(case)
     obs = run_impl(case)
     bad = predicate(case, obs)
     model = model_steps(ctx, case, obs)
@@ -563,6 +568,8 @@ def replay_case(ctx, case):
 
 
 def shrink(ctx, case):
+    if case.get('kind') == 'cli-process':
+        return case
     def bad(c):
         try:
             return bool(predicate(c, run_impl(c)))
